@@ -108,7 +108,8 @@ impl Prop for C18 {
       // row selection on A
       let nr = a.rows.len();
       let idx: Vec<usize> = (0..1 + rng.below(4)).map(|_| 1 + rng.below(nr as u64) as usize).collect();
-      let mask: Vec<bool> = (0..nr).map(|j| j == 0 || rng.chance(1, 2)).collect();
+      // one mask in six selects no row at all (the result is the empty table)
+      let mask: Vec<bool> = if i % 6 == 5 { vec![false; nr] } else { (0..nr).map(|j| j == 0 || rng.chance(1, 2)).collect() };
       out.push(Case { id: format!("select;form=scalar;n={}", i), cell: "select;form=scalar".into(), input: json!({"mode": "select", "a": a, "form": "scalar", "idx": [idx[0]]}) });
       if idx.len() >= 2 { out.push(Case { id: format!("select;form=vector;n={}", i), cell: "select;form=vector".into(), input: json!({"mode": "select", "a": a, "form": "vector", "idx": idx}) }); }
       if nr >= 2 { out.push(Case { id: format!("select;form=mask;n={}", i), cell: "select;form=mask".into(), input: json!({"mode": "select", "a": a, "form": "mask", "mask": mask}) }); }
@@ -118,8 +119,8 @@ impl Prop for C18 {
       let second: Vec<usize> = (0..2 + rng.below(first.len() as u64)).map(|_| 1 + rng.below(first.len() as u64) as usize).collect();
       out.push(Case { id: format!("select;form=chain-vv;n={}", i), cell: "select;form=chain-vv".into(), input: json!({"mode": "select", "a": a, "form": "chain-vv", "idx": first, "idx2": second}) });
       let kept = mask.iter().filter(|b| **b).count();
-      let second_m: Vec<usize> = (0..2 + rng.below(3)).map(|_| 1 + rng.below(kept as u64) as usize).collect();
-      if nr >= 2 { out.push(Case { id: format!("select;form=chain-mv;n={}", i), cell: "select;form=chain-mv".into(), input: json!({"mode": "select", "a": a, "form": "chain-mv", "mask": mask, "idx2": second_m}) }); }
+      let second_m: Vec<usize> = (0..2 + rng.below(3)).map(|_| 1 + rng.below(kept.max(1) as u64) as usize).collect();
+      if nr >= 2 && kept >= 1 { out.push(Case { id: format!("select;form=chain-mv;n={}", i), cell: "select;form=chain-mv".into(), input: json!({"mode": "select", "a": a, "form": "chain-mv", "mask": mask, "idx2": second_m}) }); }
     }
     out
   }
